@@ -935,7 +935,11 @@ def _readUrl(url, fetcher=None, overrideEncoding=None, parentEncoding=None):
         fetcher = _defaultFetcher
 
     r = fetcher(url)
-    if r and len(r) == 2 and r[1] is not None:
+    # only (encoding or None, text or bytes) is a usable answer, anything
+    # else counts as "nothing could be read"
+    if isinstance(r, (tuple, list)) and len(r) == 2 and \
+       isinstance(r[1], (text_type, bytes, bytearray, memoryview)) and \
+       (r[0] is None or isinstance(r[0], string_type)):
         httpEncoding, content = r
 
         if overrideEncoding:
